@@ -90,6 +90,8 @@ def monitorC15 (c : Case) (out : String) : String :=
     let cmds := cmdsOf c.ops
     let torn := cp == "persist_data:truncated" || cp == "persist_metadata:truncated"
     if la > n then s!"bad applied-index-ahead-{engName c.eng}"
+    -- nothing left to re-apply, yet the contents are not those of entries 1..la: effects are missing
+    else if la == n && !torn && !(sameKvB rec (ref cmds n)) then s!"bad data-behind-applied-index-{engName c.eng}"
     else if !(sameKvB fin (ref cmds n)) then
       if torn then "bad checkpoint-torn-file" else s!"bad reapply-changes-state-{engName c.eng}"
     else if !(sameKvB rec (ref cmds la)) then
